@@ -9,7 +9,7 @@
     client (update_file)  lock block (writing check, _unload_file, submit write) | wait
     client (unload_file)  lock block
     task (_load_file)     read (open 'rb' + read) | lock block (update_file_futures_and_memory) | complete
-    task (_write_file)    trunc (open 'wb') | write | fsync | lock block | complete
+    task (_write_file)    trunc (open 'wb') | write (at offset 0) | fsync | lock block | complete
 
   The schedule (who runs next, and for a worker's lock block which entries `recover_memory`
   evicts) is an INPUT; `step` returns `none` when the step is not enabled / the eviction
